@@ -1240,6 +1240,26 @@ def _build_subscript(
             "typing_extensions.Literal",
         }:
             literal_strings = True
+        if (
+            isinstance(left, (ExprAttribute, ExprName))
+            and left.canonical_path in {"typing.Annotated", "typing_extensions.Annotated"}
+            and isinstance(node.slice, ast.Tuple)
+            and node.slice.elts
+        ):
+            # Only the first argument of `Annotated` is a type:
+            # the metadata that follows are ordinary values, strings included.
+            annotated_type = _build(
+                node.slice.elts[0],
+                parent,
+                parse_strings=True,
+                literal_strings=literal_strings,
+                **kwargs,
+            )
+            metadata = [
+                _build(element, parent, parse_strings=True, literal_strings=True, **kwargs)
+                for element in node.slice.elts[1:]
+            ]
+            return ExprSubscript(left, ExprTuple([annotated_type, *metadata], implicit=True))
         slice = _build(
             node.slice,
             parent,
